@@ -138,6 +138,14 @@ def f4_expected(expected):
     return expected[:idx[-2] + 1]
 
 
+_RECENT = []       # the last calls made by this worker: replayed before a failing call
+
+
+def _remember(msg, mask):
+    _RECENT.append([msg, mask])
+    del _RECENT[:-3]
+
+
 def _case(vals, acc):
     from oslo_utils import strutils
     key, form, ri, secret, ci, mask, second = vals
@@ -157,12 +165,14 @@ def _case(vals, acc):
     exp = pre + body_e + tail_e + suf
     if secret == mask:
         return
+    priors = [list(p) for p in _RECENT]
     try:
         got = strutils.mask_password(msg, mask)
     except Exception as e:
         acc.fail('raises:%s' % family, {'message': msg, 'exception': type(e).__name__},
                  {'message': msg, 'mask': mask, 'expected': exp})
         return
+    _remember(msg, mask)
     acc.nontrivial(msg + '\0' + mask)
     sig = f4_signature(family, tail_m + suf)
     if got != exp:
@@ -187,7 +197,7 @@ def _case(vals, acc):
         else:
             acc.fail('exact:%s:%s' % (family, 'leak' if secret in got and secret not in exp else 'damage'),
                      {'message': msg, 'mask': mask, 'got': got, 'expected': exp, 'rendering': name},
-                     {'message': msg, 'mask': mask, 'expected': exp})
+                     {'message': msg, 'mask': mask, 'expected': exp, 'priors': priors})
         return
     acc.count('exact_matches')
     try:
@@ -214,6 +224,68 @@ def _pair(vals, acc):
                  {'message': msg, 'got': got, 'expected': exp},
                  {'message': msg, 'mask': '***', 'expected': exp},
                  sigs=['F4-wildcard-eats-tail'] if sig and 'F1rst' not in got and 'S3c0nd' not in got else [])
+
+
+EMBED_RENDERINGS = [0, 3, 4]          # k=v, k = 'v', 'k': 'v': patterns that are not anchored before the key
+
+
+def _embedded_case(vals, acc):
+    """A key directly preceded by the beginning of another key (new_ + password,
+    admin + password, ...): still a key."""
+    from oslo_utils import strutils
+    key, prefix, ri = vals
+    name, tmpl, family = RENDERINGS[ri]
+    k = prefix + key
+    msg = 'set ' + tmpl % {'k': k, 'v': 'Zq9'} + ' ok'
+    exp = 'set ' + tmpl % {'k': k, 'v': '***'} + ' ok'
+    got = strutils.mask_password(msg)
+    acc.nontrivial('emb' + msg)
+    if got != exp:
+        acc.fail('embedded-key:%s' % ('leak' if 'Zq9' in got else 'damage'),
+                 {'message': msg, 'got': got, 'expected': exp},
+                 {'message': msg, 'mask': '***', 'expected': exp})
+
+
+def _long_case(vals, acc):
+    """Long messages: the secret sits around a power-of-two offset."""
+    from oslo_utils import strutils
+    ri, base, delta, filler_kind = vals
+    name, tmpl, family = RENDERINGS[ri]
+    body_m = tmpl % {'k': 'password', 'v': 'hunter2Zq'}
+    body_e = tmpl % {'k': 'password', 'v': '***'}
+    n = base + delta - len(body_m) // 2
+    if n < 0:
+        return
+    unit = 'x' if filler_kind == 'solid' else 'lorem ipsum '
+    pre = (unit * (n // len(unit) + 1))[:n].rstrip() + ' '
+    suf = ' tail'
+    msg, exp = pre + body_m + suf, pre + body_e + suf
+    got = strutils.mask_password(msg)
+    acc.nontrivial('long%r' % ((ri, base, delta, filler_kind),))
+    if got != exp:
+        at = next((i for i, (a, b) in enumerate(zip(got, exp)) if a != b), min(len(got), len(exp)))
+        acc.fail('long-message:%s' % ('leak' if 'hunter2Zq' in got else 'damage'),
+                 {'rendering': name, 'message_length': len(msg), 'secret_at': len(pre),
+                  'first_difference_at': at, 'got_around': got[max(0, at - 30):at + 40]},
+                 {'long': [ri, base, delta, filler_kind]})
+
+
+def _mask_sequence(vals, acc):
+    """The same message masked with different masks, one call after the other:
+    each answer carries the mask of *its* call."""
+    from oslo_utils import strutils
+    (key, ri), masks = vals
+    name, tmpl, family = RENDERINGS[ri]
+    msg = 'a ' + tmpl % {'k': key, 'v': 'Zq9x'} + ' z'
+    acc.nontrivial('seq' + msg + repr(masks))
+    for i, m in enumerate(masks):
+        exp = 'a ' + tmpl % {'k': key, 'v': m} + ' z'
+        got = strutils.mask_password(msg, m) if m != '***' or i else strutils.mask_password(msg)
+        if got != exp:
+            acc.fail('mask-sequence', {'message': msg, 'masks_in_call_order': list(masks),
+                                       'call': i, 'got': got, 'expected': exp},
+                     {'sequence': [msg, list(masks), tmpl, key]})
+            return
 
 
 def _nokey(vals, acc):
@@ -253,6 +325,20 @@ def run(ctx):
                              [(0, 0), (8, 9), (2, 1), (9, 3)] if not full else
                              [(i, j) for i in range(len(RENDERINGS)) for j in (0, 3, 8, 9)]],
           _pair)
+    # product 3c: a key glued behind every proper prefix of every key
+    prefixes = sorted({k[:i] for k in KEYS for i in range(1, len(k) + 1)})
+    E.run(rep, 'embedded-keys', [KEYS, prefixes, EMBED_RENDERINGS], _embedded_case)
+    # product 3d: long messages, the secret around 2^12, 2^13, 2^16 (and 2^20)
+    deltas = list(range(-24, 25))
+    E.run(rep, 'long-messages', [[0, 2, 3, 5, 9, 12], [4096, 8192, 65536], deltas,
+                                 ['solid', 'words']], _long_case)
+    E.run(rep, 'very-long-messages', [[0, 9], [1 << 20], [-9, -1, 0, 1, 9] if not full else deltas,
+                                      ['words']], _long_case)
+    # product 3e: call sequences on one message with different masks
+    import itertools as _it
+    E.run(rep, 'mask-sequences', [[(k, r) for k in rep_keys[:2] for r in rlist],
+                                  [p for p in _it.permutations(MASKS + ['#'], 3)]],
+          _mask_sequence)
     # product 4: a quote after the secret (known finding F4 on dict renderings)
     E.run(rep, 'quote-after',
           [rep_keys, ['lower'], rlist, ['Zq9'], QUOTE_CONTEXTS, ['***'], [None]], _case)
@@ -293,8 +379,33 @@ def replay(payload):
     if payload.get('keylist'):
         missing = sorted(set(KEYS) - set(strutils._SANITIZE_KEYS))
         return {'violates': bool(missing), 'missing': missing}
+    if 'long' in payload:
+        acc = _Acc()
+        _long_case(tuple(payload['long']), acc)
+        return {'violates': bool(acc.fails), 'problems': acc.fails}
+    if 'sequence' in payload:
+        msg, masks, tmpl, key = payload['sequence']
+        outs = [strutils.mask_password(msg, m) for m in masks]
+        exps = ['a ' + tmpl % {'k': key, 'v': m} + ' z' for m in masks]
+        return {'violates': outs != exps, 'got': outs, 'expected': exps}
+    for pm, pk in payload.get('priors') or []:
+        strutils.mask_password(pm, pk)       # the calls that preceded it in the worker
     got = strutils.mask_password(payload['message'], payload['mask'])
     if payload.get('idempotence'):
         again = strutils.mask_password(got, payload['mask'])
         return {'violates': again != got, 'once': got, 'twice': again}
     return {'violates': got != payload['expected'], 'got': got, 'expected': payload['expected']}
+
+
+class _Acc:
+    def __init__(self):
+        self.fails = []
+
+    def fail(self, cls, summary, payload, sigs=()):
+        self.fails.append({'class': cls, 'summary': summary})
+
+    def count(self, *a):
+        pass
+
+    def nontrivial(self, *a):
+        pass
